@@ -144,6 +144,11 @@ def run(ctx, name, kind, **kw):
             key = "bits%d" % (n.bit_length() % 8) if n > 1000 else "n%d" % n
             draw(ctx, n, b"\x00" * chunk * 3, "randrange.adversarial", key + "|zeros")
             draw(ctx, n, b"\xff" * chunk * 6, "randrange.adversarial", key + "|ones")          # all rejected unless n = 2^b + 1
+            if n < 1 << b:
+                # hundreds of rejected chunks in a row, then an acceptable one: rejection sampling has no give-up point
+                for nrej in (255, 256, 257, 300, 1000):
+                    draw(ctx, n, b"\xff" * chunk * nrej + ok1 + ok1, "randrange.long_rejection_run", key + "|%d" % nrej)
+                draw(ctx, n, b"\xff" * chunk * 400, "randrange.long_rejection_run", key + "|400_then_exhausted")
             draw(ctx, n, enc(n - 1) + ok1, "randrange.adversarial", key + "|n-1")
             if n <= 1 << b:
                 draw(ctx, n, enc(n) + ok1, "randrange.adversarial", key + "|n")
@@ -254,6 +259,53 @@ def run(ctx, name, kind, **kw):
                         ok, msg = False, "raised %s: %s" % (type(ex).__name__, ex)
                     ctx.check(ok, "seed_helper_wrong", "%s(seed=%s, order=%d): %s" % (fname, seed.hex(), n, msg), dict(fn=fname, seed=seed, n=n),
                               "from ecdsa import util\nprint('library:', util.%s(%r, %d))\n" % (fname, seed, n))
+        # bit-exact models of the anchored helpers; text and byte seeds with the same characters are DIFFERENT seeds, asked in both orders
+        import hashlib as _h
+
+        def m_prng(seed, nbytes):
+            out, counter = b"", 0
+            while len(out) < nbytes:
+                out += _h.sha256(("prng-%d-%s" % (counter, seed)).encode()).digest()
+                counter += 1
+            return out[:nbytes]
+
+        def m_overshoot(seed, order):
+            ol = (1 + len("%x" % order)) // 2
+            return int.from_bytes(m_prng(seed, 2 * ol), "big") % (order - 1) + 1
+
+        def m_try(seed, order):
+            import math
+            bits = int(math.log(order - 1, 2) + 1)
+            nby, extra = bits // 8, bits % 8
+            stream, pos = m_prng(seed, 4096), 0
+            while True:
+                eb = b""
+                if extra:
+                    eb = bytes([stream[pos] & ((1 << extra) - 1)])
+                    pos += 1
+                guess = int.from_bytes(eb + stream[pos:pos + nby], "big") + 1
+                pos += nby
+                if 1 <= guess < order:
+                    return guess
+        texts = ["abc", "seed-1", "", "0123456789" * 3, "prng"]
+        pairs = []
+        for t in texts:
+            pairs += [(t, t.encode()), (t.encode(), t)]
+        for first, second in pairs:
+            for order in (lib.dom_of(lib.BY_NAME["NIST192p"]).n, 257, 65537, lib.dom_of(lib.BY_NAME["NIST521p"]).n):
+                for seed in (first, second):
+                    for fname, model, cls in (("randrange_from_seed__trytryagain", m_try, "seed.trytryagain"), ("randrange_from_seed__overshoot_modulo", m_overshoot, "seed.overshoot")):
+                        ctx.case(cls, key="model|%s|%d" % (type(seed).__name__, order.bit_length()))
+                        try:
+                            got = getattr(util, fname)(seed, order)
+                        except Exception as ex:
+                            got = "raised %s" % type(ex).__name__
+                        want = model(seed, order)
+                        ctx.check(got == want, "seed_helper_not_a_function_of_seed_and_order", "%s(%r, %d-bit order) = %r, model %r (a %s seed was used just before)" % (
+                            fname, seed, order.bit_length(), got, want, "text" if isinstance(seed, bytes) else "byte"), dict(fn=fname, seed=seed, order=order))
+                    ctx.case("prng", key="model|%s" % type(seed).__name__)
+                    got = util.PRNG(seed)(40)
+                    ctx.check(got == m_prng(seed, 40), "prng_stream_wrong", "PRNG(%r)(40) differs from the model (sha256 of 'prng-<counter>-<seed>')" % (seed,), dict(seed=seed))
         for sl in (0, 1, 16, 64):
             seed = bytes(rng.getrandbits(8) for _ in range(sl))
             ctx.case("prng", key=str(sl))
